@@ -919,6 +919,13 @@ fn u9_value_validate(es: u16, multipart: bool) {
 			// obligation 2: a record accepted by validation fits its slot (the apply pass writes what it reads, U9.value.enact_*)
 			assert!(bytes_v <= es as u64, "U9.value.validated_record_fits_slot");
 			assert!(bytes_v >= 2, "U9.value.size_word_always_consumed");
+			// the record kind is decided exactly as the apply pass decides it (enact_plan: tombstone / multipart-table
+			// chain part / sized entry), so both passes consume the same bytes
+			let head = vl::reader_seen();
+			let sz = (head[0] as u64) | (((head[1] & 0x7f) as u64) << 8);
+			let tomb = head[0] == 0xff && head[1] == 0xff;
+			let multi = multipart && ((head[0] == 0xfe && head[1] == 0xff) || (head[0] == 0xfd && (head[1] == 0xff || head[1] == 0x7f)));
+			assert!(bytes_v == if tomb { 10 } else if multi { es as u64 } else { 2 + sz }, "U9.value.validate_parses_record_kind_as_enact_does");
 		}
 	}
 	kani::cover!(v.is_some() && index != 0 && bytes_v == 10, "tombstone-sized record accepted");
